@@ -80,4 +80,182 @@ theorem computePrices_spec (v : Commodity) (days : List Day) :
           simp only [List.getElem?_cons_succ, List.getElem_cons_succ, declsUpTo_succ, ← List.append_assoc]
           exact h2
 
+/-! ## `journal.Builder`: days sorted by date, file order within a day -/
+
+/-- the price declarations of the directives dated `date`, in file order -/
+def pricesOn (ds : List (Int × Option Decl)) (date : Int) : List Decl :=
+  ds.filterMap (fun e => if e.1 = date then e.2 else none)
+
+theorem pricesOn_append (ds : List (Int × Option Decl)) (date : Int) (x : Option Decl) (d : Int) :
+    pricesOn (ds ++ [(date, x)]) d = pricesOn ds d ++ (if date = d then x.toList else []) := by
+  unfold pricesOn
+  rw [List.filterMap_append]
+  by_cases h : date = d
+  · cases x <;> simp [h]
+  · simp [h]
+
+theorem pricesOn_eq_nil (ds : List (Int × Option Decl)) (d : Int) (h : ∀ e ∈ ds, e.1 ≠ d) : pricesOn ds d = [] := by
+  unfold pricesOn
+  apply List.filterMap_eq_nil_iff.mpr
+  intro e he
+  simp [h e he]
+
+def dayDates (days : List Day) : List Int := days.map (·.date)
+
+theorem mem_dates_insertDay (days : List Day) (date : Int) (x : Option Decl) (d : Int) :
+    d ∈ dayDates (insertDay days date x) ↔ d = date ∨ d ∈ dayDates days := by
+  induction days with
+  | nil => simp [insertDay, dayDates]
+  | cons y rest ih =>
+    simp only [insertDay]
+    split
+    · simp [dayDates]
+    · split
+      · rename_i heq
+        simp only [dayDates, List.map_cons, List.mem_cons]
+        constructor
+        · intro h; exact Or.inr h
+        · intro h
+          rcases h with h | h
+          · exact Or.inl (h.trans heq)
+          · exact h
+      · simp only [dayDates, List.map_cons, List.mem_cons] at ih ⊢
+        rw [ih]
+        constructor
+        · intro h
+          rcases h with h | h | h
+          · exact Or.inr (Or.inl h)
+          · exact Or.inl h
+          · exact Or.inr (Or.inr h)
+        · intro h
+          rcases h with h | h | h
+          · exact Or.inr (Or.inl h)
+          · exact Or.inl h
+          · exact Or.inr (Or.inr h)
+
+theorem sorted_insertDay (days : List Day) (date : Int) (x : Option Decl)
+    (h : (dayDates days).Pairwise (· < ·)) : (dayDates (insertDay days date x)).Pairwise (· < ·) := by
+  induction days with
+  | nil => simp [insertDay, dayDates]
+  | cons y rest ih =>
+    simp only [dayDates, List.map_cons, List.pairwise_cons] at h
+    simp only [insertDay]
+    split
+    · rename_i hlt
+      simp only [dayDates, List.map_cons, List.pairwise_cons, List.mem_cons]
+      refine ⟨?_, h.1, h.2⟩
+      intro a ha
+      rcases ha with rfl | ha
+      · exact hlt
+      · exact Int.lt_trans hlt (h.1 a ha)
+    · split
+      · simp only [dayDates, List.map_cons, List.pairwise_cons]
+        exact h
+      · rename_i hnlt hne
+        have hgt : y.date < date := by omega
+        simp only [dayDates, List.map_cons, List.pairwise_cons]
+        refine ⟨?_, ih h.2⟩
+        intro a ha
+        rcases (mem_dates_insertDay rest date x a).mp ha with rfl | ha'
+        · exact hgt
+        · exact h.1 a ha'
+
+/-- the invariant of `Builder.Add`: dates strictly ascending, exactly the dates that occur, and every
+day holds the declarations of its date in file order -/
+structure DaysInv (days : List Day) (ds : List (Int × Option Decl)) : Prop where
+  sorted : (dayDates days).Pairwise (· < ·)
+  dates : ∀ d, d ∈ dayDates days ↔ ∃ e ∈ ds, e.1 = d
+  prices : ∀ day ∈ days, day.prices = pricesOn ds day.date
+
+theorem prices_insertDay (days : List Day) (date : Int) (x : Option Decl) (ds : List (Int × Option Decl))
+    (h : DaysInv days ds) : ∀ day ∈ insertDay days date x, day.prices = pricesOn (ds ++ [(date, x)]) day.date := by
+  have hnew : date ∉ dayDates days → pricesOn ds date = [] := by
+    intro hn
+    apply pricesOn_eq_nil
+    intro e he heq
+    exact hn ((h.dates date).mpr ⟨e, he, heq⟩)
+  have hs := h.sorted
+  have hp := h.prices
+  clear h
+  induction days with
+  | nil =>
+    intro day hday
+    simp only [insertDay, List.mem_singleton] at hday
+    subst hday
+    rw [pricesOn_append, hnew (by simp [dayDates])]
+    simp
+  | cons y rest ih =>
+    simp only [dayDates, List.map_cons, List.pairwise_cons] at hs
+    intro day hday
+    simp only [insertDay] at hday
+    split at hday
+    · rename_i hlt
+      rcases List.mem_cons.mp hday with rfl | hday'
+      · have : date ∉ dayDates (y :: rest) := by
+          simp only [dayDates, List.map_cons, List.mem_cons, not_or]
+          refine ⟨by omega, ?_⟩
+          intro hm
+          have := hs.1 date hm
+          omega
+        rw [pricesOn_append, hnew this]
+        simp
+      · rw [pricesOn_append, hp day hday']
+        have : date ≠ day.date := by
+          rcases List.mem_cons.mp hday' with rfl | hr
+          · omega
+          · have := hs.1 day.date (List.mem_map_of_mem hr)
+            omega
+        simp [this]
+    · split at hday
+      · rename_i heq
+        rcases List.mem_cons.mp hday with rfl | hday'
+        · simp only
+          rw [pricesOn_append, hp y List.mem_cons_self]
+          simp [heq]
+        · rw [pricesOn_append, hp day (List.mem_cons_of_mem _ hday')]
+          have : date ≠ day.date := by
+            have := hs.1 day.date (List.mem_map_of_mem hday')
+            omega
+          simp [this]
+      · rename_i hnlt hne
+        rcases List.mem_cons.mp hday with rfl | hday'
+        · rw [pricesOn_append, hp day List.mem_cons_self]
+          simp [hne]
+        · apply ih _ hs.2 (fun d hd => hp d (List.mem_cons_of_mem _ hd)) day hday'
+          intro hn
+          apply hnew
+          simp only [dayDates, List.map_cons, List.mem_cons, not_or]
+          exact ⟨hne, hn⟩
+
+theorem daysInv_insertDay (days : List Day) (date : Int) (x : Option Decl) (ds : List (Int × Option Decl))
+    (h : DaysInv days ds) : DaysInv (insertDay days date x) (ds ++ [(date, x)]) := by
+  refine ⟨sorted_insertDay days date x h.sorted, ?_, prices_insertDay days date x ds h⟩
+  intro d
+  rw [mem_dates_insertDay, h.dates d]
+  constructor
+  · intro hd
+    rcases hd with rfl | ⟨e, he, heq⟩
+    · exact ⟨(d, x), by simp, rfl⟩
+    · exact ⟨e, by simp [he], heq⟩
+  · intro ⟨e, he, heq⟩
+    rcases List.mem_append.mp he with he | he
+    · exact Or.inr ⟨e, he, heq⟩
+    · simp only [List.mem_singleton] at he
+      subst he
+      exact Or.inl heq.symm
+
+theorem daysInv_foldl (ds pre : List (Int × Option Decl)) (days : List Day) (h : DaysInv days pre) :
+    DaysInv (ds.foldl (fun acc e => insertDay acc e.1 e.2) days) (pre ++ ds) := by
+  induction ds generalizing days pre with
+  | nil => simpa using h
+  | cons e rest ih =>
+    simp only [List.foldl_cons]
+    have := ih (pre ++ [(e.1, e.2)]) (insertDay days e.1 e.2) (daysInv_insertDay days e.1 e.2 pre h)
+    simpa using this
+
+/-- `journal.Builder` applied to the dated directives of a journal in file order -/
+theorem buildDays_inv (ds : List (Int × Option Decl)) : DaysInv (buildDays ds) ds := by
+  have := daysInv_foldl ds [] [] ⟨by simp [dayDates], by simp [dayDates], by simp⟩
+  simpa [buildDays] using this
+
 end Knut.Prices
